@@ -848,7 +848,7 @@ func maxInt(a, b int) int {
 //@   nonnil prev_iter_ends_odd_backslash prev_iter_inside_quote error_mask prev_iter_ends_pseudo_pred indexes index carried position
 
 //@ func (*internalParsedJson).findStructuralIndices
-//@   props C05
+//@   props C05 C07
 //@   requires len(pj.Message) < 1<<40
 //@   invariant 0 len(buf) < 1<<40 && implies(len(buf) > 0 && stripped_index == ^uint64(0), position+1+carried == 0) && implies(len(buf) > 0 && stripped_index != ^uint64(0), position+1+carried+stripped_index == 0 && stripped_index < 1<<32)
 //@   decreases 0 len(buf)
